@@ -122,7 +122,8 @@ def gen_norm(rng):
   kind = rng.choice(['layer', 'layer', 'rms', 'group', 'instance', 'batch', 'batch'])
   rank = rng.randint(2, 4) if kind not in ('instance',) else rng.randint(3, 4)
   shape = [rng.randint(1, 3) for _ in range(rank - 1)] + [rng.choice([2, 4])]
-  c = {'layer': 'norm', 'kind': kind, 'x': ints(rng, shape, -4, 4), 'epsilon': rng.choice([1e-6, 1e-3, 0.5]), 'use_scale': rng.random() < 0.7, 'use_bias': rng.random() < 0.7}
+  c = {'layer': 'norm', 'kind': kind, 'x': ints(rng, shape, -4, 4), 'epsilon': rng.choice([1e-6, 1e-3, 0.5]), 'use_scale': rng.random() < 0.7, 'use_bias': rng.random() < 0.7,
+       'use_fast_variance': rng.random() < 0.5}
   if rng.random() < 0.3:
     m = ints(rng, shape, 0, 1)
     c['mask'] = np.array(m, dtype=bool).tolist()
@@ -165,7 +166,8 @@ def gen_norm(rng):
 
 def gen_dropout(rng):
   shape = [rng.randint(1, 4) for _ in range(rng.randint(1, 3))]
-  bd = sorted(rng.sample(range(len(shape)), rng.randint(0, len(shape) - 1))) if rng.random() < 0.4 else []
+  bd = sorted(rng.sample(range(len(shape)), rng.randint(0, len(shape) - 1))) if rng.random() < 0.5 else []
+  bd = [d if rng.random() < 0.5 else d - len(shape) for d in bd]        # negative axes too
   return {'layer': 'dropout', 'x': ints(rng, shape, 1, 5), 'rate': rng.choice([0.0, 0.25, 0.5, 1.0]), 'deterministic': rng.random() < 0.25, 'broadcast_dims': bd, 'seed': rng.randint(0, 99)}
 
 
@@ -276,7 +278,7 @@ def check_dropout(chk, c, r):
         # the mask is shared along broadcast dims
         m = ~zero
         for d in c['broadcast_dims']:
-          ok = ok and bool(np.all(m == np.take(m, [0], axis=d)))
+          ok = ok and bool(np.all(m == np.take(m, [0], axis=d % m.ndim)))
         what = 'does not share the mask along broadcast_dims'
     if not ok:
       chk.violation('oracle', '%s Dropout %s' % (api, what), {'case': c, 'output': got['ok']})
